@@ -164,8 +164,18 @@ NoRequeueOfOwned(P, o, Q, R) ==
     \A t \in Tx : (OwnedByActiveR(P, o, t, R) /\ ~Eligible(P, t)) => ~Eligible(Q, t)
 
 StepOKR(P, o, Q, R) == NoLoss(P, o, Q, R) /\ NoRequeueOfOwned(P, o, Q, R)
-\* design level: R is what the specification retires; trace level: R is what was observed to be retired
+\* "expires after a round gap": an installed proposal strictly older than the gap that is not complete
+\* (commitment threshold reached AND every commitment answered) MUST be retired by an expiry step;
+\* at exactly ts + gap the statement does not decide (the specification expires it, see Expired)
+MustExpire(P, o) ==
+    IF o.op = "Expire"
+    THEN { a \in Agg : P.agg[a].on /\ o.now > P.agg[a].ts + Gap /\ ~Complete(P.agg[a], o.base) }
+    ELSE {}
+
+\* design level: R is what the specification retires
 StepOK(P, o, Q) == StepOKR(P, o, Q, Retired(P, o))
-StepOKObs(P, o, Q) == StepOKR(P, o, Q, RetiredObs(P, Q))
+\* trace level: R is what was observed to be retired, plus what the statement says must expire (a proposal
+\* that stays installed for ever keeps its transactions out of the cache queue: they are lost)
+StepOKObs(P, o, Q) == StepOKR(P, o, Q, RetiredObs(P, Q) \cup MustExpire(P, o))
 
 =============================================================================
